@@ -389,14 +389,23 @@ def variable_part(run, rng, finds, quick):
                 if (o.tag, o.v, o.tail) != (7, n, 0x1234) or o.pack() != data:
                     finds.setdefault("leb128-field|" + kind, {"value": n, "data": data.hex(), "unpacked": [o.tag, o.v, o.tail], "packed": o.pack().hex()})
             elif kind == "cnt":
-                ct = rng.choice(["B", "H", "I"])
-                payload = bytes(rng.getrandbits(8) for _ in range(rng.randrange(0, 9)))
-                cls = StructFactory(name, "s*~%s : body\nB : tail" % ct, packed=True)
-                data = struct.pack("<" + ct, len(payload)) + payload + b"\x99"
-                run.count((kind, data))
+                ct = rng.choice(["B", "H", "I", "h", "i"])
+                order = rng.choice(["<", ">"])
+                et = rng.choice(["s", "s", "H", "I", "B"])
+                nel = rng.choice([0, 1, 2, 3, 5, 8, 0x101 if ct != "B" and et in "sB" else 4])
+                if et == "s":
+                    payload = bytes(rng.getrandbits(8) for _ in range(nel))
+                    want = payload
+                else:
+                    want = tuple(rng.getrandbits(8 * struct.calcsize(et)) for _ in range(nel))
+                    payload = struct.pack(order + "%d%s" % (nel, et), *want)
+                cls = StructFactory(name, "%s*~%s : body\nH : tail" % (et, ct), packed=True, order=order)
+                data = struct.pack(order + ct, nel) + payload + struct.pack(order + "H", 0x9912)
+                run.count((kind, order, ct, et, data))
                 o = cls().unpack(data)
-                if payload and (o.body != payload or o.tail != 0x99 or o.pack() != data):
-                    finds.setdefault("counted-field", {"data": data.hex(), "body": repr(o.body), "tail": o.tail, "packed": o.pack().hex()})
+                if nel and ((tuple(o.body) if et != "s" else o.body) != want or o.tail != 0x9912 or o.pack() != data or len(o) != len(data)):
+                    finds.setdefault("counted-field|%s%s" % (order, "1" if ct == "B" else "n"), {"format": "%s*~%s" % (et, ct), "order": order, "data": data.hex()[:200],
+                                     "body": repr(o.body)[:120], "expected": repr(want)[:120], "tail": o.tail, "packed": o.pack().hex()[:200]})
             elif kind == "bind":
                 payload = bytes(rng.getrandbits(8) for _ in range(rng.randrange(1, 9)))
                 cls = StructFactory(name, "B : n\ns*.n : body\nB : tail", packed=True)
